@@ -50,4 +50,95 @@ def statement_session : Prop :=
 
 theorem C01_session : statement_session := Cspuz.Proofs.C01.session
 
+/-! ### non-vacuity -/
+
+/-- `(b0 & ~True).cond(i1 + 2 + (-3), 5 - i2) <= 4`, `alldiff(1, 2, 3) == (b3 ^ False)`: nested,
+literals mixed in, a unary `sub`, a constant-only `alldiff`, an `iff` and an `imp`. -/
+def exTree : Expr :=
+  .node .imp [
+    .node .le [
+      .node .ite [.node .and [.bvar 0, .node .not [.litB true]],
+                  .node .add [.ivar 1, .litI 2, .node .neg [.litI 3]],
+                  .node .sub [.node .sub [.litI 5], .ivar 2]],
+      .node .intConst [.litI 4]],
+    .node .iff [.node .alldiff [.litI 1, .litI 2, .litI 3], .node .xor [.bvar 3, .litB false]]]
+
+example : wtB exTree = true := by decide
+
+example : convertExpr exTree = .ok (.t (.or [
+    .not (.cmp .le
+      (.ite (.and [.bconst 0, .not (.bval true)])
+            (.add (.add (.iconst 1) (.ival 2)) (.ival (-3)))
+            (.sub (.ival 5) (.iconst 2)))
+      (.ival 4)),
+    .beq (.bval true) (.xor (.bconst 3) (.bval false))])) := by
+  rfl
+
+example (σ : Asg) : ∃ r, convertExpr exTree = .ok r ∧ r.val σ = eval σ exTree :=
+  C01_translation_faithful exTree σ (.inl (by decide))
+
+/-- The hypothesis `Backend.Correct` is satisfiable (a classical decision procedure). -/
+example : ∃ B : Backend, B.Correct := by
+  classical
+  refine ⟨fun decls cs => if h : Satisfiable decls cs then .ok (some (Classical.choose h)) else .ok none, ?_⟩
+  intro decls cs _
+  by_cases h : Satisfiable decls cs
+  · refine ⟨some (Classical.choose h), by simp [h], ?_, by simp⟩
+    intro σ hσ
+    cases hσ
+    exact Classical.choose_spec h
+  · exact ⟨none, by simp [h], by simp, fun _ => h⟩
+
+/-- `b = BoolVar(); x = IntVar(0, 3); ensure([b, [x >= 2]]); find_answer(); ensure(x < 2 & b);
+find_answer()`: the first solve is SAT, the second UNSAT, for every correct backend. -/
+def exOps : List SolverOp :=
+  [.boolVar, .intVar 0 3,
+   .ensure (.items [.leaf (.bvar 0), .items [.leaf (.node .ge [.ivar 1, .litI 2])]]),
+   .findAnswer,
+   .ensure (.leaf (.node .and [.node .lt [.ivar 1, .litI 2], .bvar 0])),
+   .findAnswer]
+
+theorem exOps_cs : csOf exOps =
+    [.bvar 0, .node .ge [.ivar 1, .litI 2], .node .and [.node .lt [.ivar 1, .litI 2], .bvar 0]] := rfl
+
+theorem exOps_wt : WellTyped exOps := by
+  intro c hc
+  rw [exOps_cs] at hc
+  simp only [List.mem_cons, List.not_mem_nil, or_false] at hc
+  rcases hc with rfl | rfl | rfl <;> decide
+
+example (B : Backend) (hB : B.Correct) :
+    (runSession B {} exOps).2[3]? = some (.verdict true) := by
+  have h := C01_session B hB exOps exOps_wt 3 rfl
+  have hd : declsOf (exOps.take 3) = [.bool, .int 0 3] := rfl
+  have hc : csOf (exOps.take 3) = [.bvar 0, .node .ge [.ivar 1, .litI 2]] := rfl
+  refine h.2.2.2.1.2 ⟨⟨fun _ => true, fun _ => 2⟩, ?_, ?_⟩
+  · intro id lo hi hd'
+    rw [hd] at hd'
+    match id, hd' with
+    | 1, hd' =>
+      simp only [List.getElem?_cons_succ, List.getElem?_cons_zero, Option.some.injEq, VarDecl.int.injEq] at hd'
+      obtain ⟨rfl, rfl⟩ := hd'
+      exact ⟨by decide, by decide⟩
+    | 0, hd' => simp at hd'
+    | n + 2, hd' => simp at hd'
+  · intro c hc'
+    rw [hc] at hc'
+    simp only [List.mem_cons, List.not_mem_nil, or_false] at hc'
+    rcases hc' with rfl | rfl <;> simp [Cspuz.Proofs.eval_node, evalOp, allInts, cmpOp]
+
+example (B : Backend) (hB : B.Correct) :
+    (runSession B {} exOps).2[5]? = some (.verdict false) := by
+  have h := C01_session B hB exOps exOps_wt 5 rfl
+  have hcs : csOf (exOps.take 5) = csOf exOps := rfl
+  rcases h.2.2.1 with h1 | h1
+  · exfalso
+    obtain ⟨σ, hσ, hc⟩ := h.2.2.2.1.1 h1
+    rw [hcs, exOps_cs] at hc
+    have h2 := hc (.node .ge [.ivar 1, .litI 2]) (by simp)
+    have h3 := hc (.node .and [.node .lt [.ivar 1, .litI 2], .bvar 0]) (by simp)
+    simp [Cspuz.Proofs.eval_node, evalOp, allInts, allBools, cmpOp] at h2 h3
+    omega
+  · exact h1
+
 end Cspuz.C01
